@@ -578,6 +578,32 @@ def c_dumped(t):
         copt(None if text is None else c_text(text), "text"), clist([c_dumped(k) for k in kids], "elem"))
 
 
+def run_grouped(ck, name, case_type, cases, preds, suspects=(), group=25, shard_groups=40):
+    """ck.run_cases with the cases that are expected to pass packed `group` to
+    a Coq term (the per-case nat index of run_cases dominates Coq's time
+    otherwise); members of a failing pack and the `suspects` (cases whose
+    outcome is already known to differ) are evaluated one by one.  Returns
+    pred -> sorted failing case indexes, exactly as run_cases would."""
+    suspects = set(suspects)
+    packed = [i for i in range(len(cases)) if i not in suspects]
+    groups = [packed[k:k + group] for k in range(0, len(packed), group)]
+    redo = set(suspects)
+    if groups:
+        gpreds = ["(fun l => forallb (%s) l)" % p for p in preds]
+        r = ck.run_cases(name + "_p", PRE, "list (%s)" % case_type,
+                         [clist([cases[i] for i in g], case_type) for g in groups], gpreds, shard=shard_groups)
+        for gp in gpreds:
+            for k in r[gp]:
+                redo.update(groups[k])
+    res = dict((p, []) for p in preds)
+    ind = sorted(redo)
+    if ind:
+        r2 = ck.run_cases(name, PRE, case_type, [cases[i] for i in ind], preds, shard=150)
+        for p in preds:
+            res[p] = sorted(ind[j] for j in r2[p])
+    return res
+
+
 # ---------------------------------------------------------------------------
 # the check
 # ---------------------------------------------------------------------------
@@ -653,7 +679,7 @@ def run(ck):
         ck.seen(("enc", s), nontrivial=any(c in s for c in "&<>\"'"))
         ck.count("enc")
     ck.sample({"group": "enc", "value": "a<&lt;&", "encode": enc.encode("a<&lt;&"), "decode": enc.decode("a<&lt;&")})
-    res = ck.run_cases("enc", PRE, "enc_case", cases, ["enc_agrees"], shard=500)
+    res = run_grouped(ck, "enc", "enc_case", cases, ["enc_agrees"])
     for i in res["enc_agrees"]:
         disagree("Encoder.encode/decode", {"value": meta[i][0], "encode": meta[i][1], "decode": meta[i][2]})
 
@@ -697,15 +723,16 @@ def run(ck):
         meta.append((op, s, flag, other, oflag, repr(r)))
         ck.seen(("txt", op, s, flag, other, oflag))
         ck.count("txt-" + op)
-    res = ck.run_cases("txt", PRE, "txt_case", cases, ["txt_agrees"], shard=500)
+    res = run_grouped(ck, "txt", "txt_case", cases, ["txt_agrees"])
     for i in res["txt_agrees"]:
         disagree("Text." + meta[i][0], {"case": repr(meta[i])})
 
     # ------------------------------------------------------------------ shared evaluation of req_case groups
     def eval_req(group, cases, meta):
         """meta[i] = dict(value, attr(bool), seen, raw, where, how, scope-rewrite(bool))"""
-        res = ck.run_cases(group, PRE, "req_case", cases,
-                           ["req_agrees", "req_spec_ok", "req_wf_ok", "req_oracle_ok"], shard=500)
+        res = run_grouped(ck, group, "req_case", cases,
+                          ["req_agrees", "req_spec_ok", "req_wf_ok", "req_oracle_ok"],
+                          suspects=[i for i, m in enumerate(meta) if m["seen"] != m["value"]])
         bad_spec = set(res["req_spec_ok"]) | set(res["req_wf_ok"])
         for i in sorted(bad_spec):
             m = meta[i]
@@ -913,8 +940,9 @@ def run(ck):
             ck.count("rep-" + ("attr" if attr else "text"))
             for kind, _ in pcs[i]:
                 ck.count("piece-" + kind)
-    res = ck.run_cases("rep", PRE, "rep_case", cases,
-                       ["rep_writer_ok", "rep_agrees", "rep_spec_ok", "rep_oracle_ok"], shard=400)
+    res = run_grouped(ck, "rep", "rep_case", cases,
+                      ["rep_writer_ok", "rep_agrees", "rep_spec_ok", "rep_oracle_ok"],
+                      suspects=[i for i, m in enumerate(meta) if (m["got"] or "") != m["value"]], group=10)
     if res["rep_writer_ok"]:
         i = res["rep_writer_ok"][0]
         raise RuntimeError("independent writer / Coq render_pieces out of step on %r" % (meta[i],))
@@ -962,7 +990,8 @@ def run(ck):
             ck.seen(("tree", repr(t), pretty), nontrivial=bool(t[3]) or bool(t[2]))
             ck.count("tree-pretty" if pretty else "tree-plain")
     ck.sample({"group": "tree", "tree": meta[7]["tree"], "pretty": meta[7]["pretty"], "out": meta[7]["out"]})
-    res = ck.run_cases("tree", PRE, "tree_case", cases, ["tree_agrees", "tree_spec_ok"], shard=150)
+    res = run_grouped(ck, "tree", "tree_case", cases, ["tree_agrees", "tree_spec_ok"],
+                      suspects=[i for i, m in enumerate(meta) if ENTITY_RE.search(m["tree"])], group=10)
     bad_spec = set(res["tree_spec_ok"])
     for i in sorted(bad_spec):
         m = meta[i]
